@@ -396,6 +396,21 @@ func catalogPods() []PodCase {
 			})
 		}
 	}
+	// empty but non-nil lists and maps where the pod otherwise leaves them unset (what an in-memory constructor or a decoder
+	// of `"drop": []` may produce): an empty list is an absent list
+	for _, l := range locs {
+		l := l
+		add(l.name+".caps.drop=[]nonNil", func(p *corev1.Pod) { l.sc(p).Capabilities.Drop = []corev1.Capability{} })
+		add(l.name+".caps.add=[]nonNil", func(p *corev1.Pod) { l.sc(p).Capabilities.Add = []corev1.Capability{} })
+		add(l.name+".caps={[],[]}", func(p *corev1.Pod) { l.sc(p).Capabilities = &corev1.Capabilities{Add: []corev1.Capability{}, Drop: []corev1.Capability{}} })
+		add(l.name+".ports=[]nonNil", func(p *corev1.Pod) { *l.ports(p) = []corev1.ContainerPort{} })
+	}
+	add("pod.sysctls=[]nonNil", func(p *corev1.Pod) { p.Spec.SecurityContext.Sysctls = []corev1.Sysctl{} })
+	add("pod.volumes=[]nonNil", func(p *corev1.Pod) { p.Spec.Volumes = []corev1.Volume{} })
+	add("pod.annotations={}nonNil", func(p *corev1.Pod) { p.Annotations = map[string]string{} })
+	add("pod.initContainers=[]nonNil", func(p *corev1.Pod) { p.Spec.InitContainers = []corev1.Container{} })
+	add("pod.ephemeralContainers=[]nonNil", func(p *corev1.Pod) { p.Spec.EphemeralContainers = []corev1.EphemeralContainer{} })
+	add("pod.nodeSelector={}nonNil", func(p *corev1.Pod) { p.Spec.NodeSelector = map[string]string{} })
 	// long lists: many items of one kind on an otherwise compliant pod, with the offending item first, last, in the middle,
 	// repeated, or absent — a verdict or a message must not depend on how long a list is
 	for _, n := range []int{8, 9, 16, 17, 33, 64} {
